@@ -450,8 +450,11 @@ class Machine(RuleBasedStateMachine):
                            'ok' if (ok and not full) else 'reject')
             elif op == 'extend':
                 k = data.draw(st.integers(0, 3), label='extend count')
-                vals = [self.value_for(data, m.type) for _ in range(k)]
-                msgs = [self.codec.build(self.schema.resolve(m.type).name, self.from_model(m.type, v)) for v in vals]
+                pairs = [self.value_for(data, m.type) for _ in range(k)]
+                vals = [p[0] for p in pairs]
+                # built from the *raw* values: fields and union arms the generator left unset stay unassigned in the
+                # argument (a switched discriminator with a never-touched arm, a never-read nested struct)
+                msgs = [self.codec.build(self.schema.resolve(m.type).name, p[1]) for p in pairs]
                 too_many = limit is not None and len(lst) + k > limit
                 self.structural()
                 how = data.draw(st.sampled_from(['list', 'list', 'tuple', 'generator', 'self', 'bad_element']),
@@ -671,9 +674,12 @@ class Machine(RuleBasedStateMachine):
         return out[:12]
 
     def value_for(self, data, tname):
-        """A generated model value of a composite type (for extend by messages)."""
-        vg = gen.ValueGen(data.draw, self.schema, gen.GenOpts(allow_unset=False, avoid=self.opts.avoid), self.ctx.rw)
-        return self.to_model(tname, self.ctx.rw.normalize(tname, vg.value(tname)))
+        """-> (model value, raw generated value with unset parts) of a composite type (for extend by messages)."""
+        o = gen.GenOpts(allow_unset=True, avoid=self.opts.avoid)
+        o.unset_bias = (3, 5)
+        vg = gen.ValueGen(data.draw, self.schema, o, self.ctx.rw)
+        raw = vg.value(tname)
+        return self.to_model(tname, self.ctx.rw.normalize(tname, raw)), raw
 
     # ------------------------------------------------------------------ invariant
     @invariant()
